@@ -143,6 +143,17 @@ def generate(tier):
                                 c = build(sh, ['a', 'b', ft, 'w'], ts, [{}, {}, marks, {}], salt)
                             if c:
                                 cases.append(c)
+    # very wide: 12 fields, the marker (with and without method) at positions 0, 1, 9, 10, 11
+    for style in 'tn':
+        fl = S.Fields(style, 12)
+        ft = ''.join('abw'[i % 3] for i in range(12))
+        for pos_ in (0, 1, 9, 10, 11):
+            for meth in (False, True):
+                salt += 1
+                for sh in (S.Shape('struct', [fl]), S.Shape('enum', [S.Fields('t', 1), fl])):
+                    c = build(sh, [ft] if sh.kind == 'struct' else ['c', ft], ('c',), [{(pos_, 'c'): meth}] if sh.kind == 'struct' else [{}, {(pos_, 'c'): meth}], salt)
+                    if c:
+                        cases.append(c)
     # two variants, independent designations (at most one marker per variant)
     small = [S.Fields('t', 1), S.Fields('n', 2), S.Fields('t', 2)]
     for combo in itertools.product(small, repeat=2):
